@@ -6,3 +6,4 @@ pub mod asm;
 pub mod refs;
 pub mod corpus;
 pub mod samples;
+pub mod proj_duke;
